@@ -62,6 +62,8 @@ impl Group for Reply {
                 "bytes=0-1,2-3", "bytes=0-1, 2-3", "bytes=-5", "bytes=5-", "bytes=-", "bytes=", "", "bytes", "bytes=a-b", "bytes=1-b", "bytes=1--3", "bytes=-1-3",
                 "bytes=1-3-5", "bytes=0x1-3", "bytes=1.0-3", "bytes=1-3;q=1", "bytes=\t1-3", "bytes=1-\u{e9}", "bytes=++1-3", "bytes=+-3", "bytes=0-+", "=1-3", "bytes=1_0-3",
                 "bytes=18446744073709551615-18446744073709551615", "bytes=18446744073709551616-18446744073709551616", "bytes=0-00000000000000000000000000005",
+                // a repeated unit or separator is not the grammar's `bytes=<first>-<last>` either
+                "bytes=bytes=1-3", "bytes=bytes=bytes=0-5", "bytes=bytes=5-3", "bytes=bytes=40-400", "bytes==1-3", "bytes=1-3bytes=", "bytes=1-bytes=3",
             ] {
                 v.push(format!("c09.reply {b} {}", hex(var.as_bytes())));
             }
@@ -75,6 +77,28 @@ impl Group for Reply {
                 let a = rng.below(len + 3);
                 let e = rng.below(len + 5);
                 format!("bytes={a}-{e}")
+            } else if rng.chance(1, 3) {
+                // one edit of a well-formed header: a piece repeated, inserted, dropped or re-cased
+                let a = rng.below(len + 3);
+                let e = rng.below(len + 5);
+                let parts = ["bytes=".to_owned(), a.to_string(), "-".to_owned(), e.to_string()];
+                let i = rng.below(4);
+                let mut s = String::new();
+                let edit = rng.below(5);
+                for (j, p) in parts.iter().enumerate() {
+                    if j == i {
+                        match edit {
+                            0 => { s.push_str(p); s.push_str(p); }
+                            1 => { s.push_str(p); s.push_str(p); s.push_str(p); }
+                            2 => { s.push_str(*rng.pick(&toks[..])); s.push_str(p); }
+                            3 => {}
+                            _ => s.push_str(&p.to_uppercase()),
+                        }
+                    } else {
+                        s.push_str(p);
+                    }
+                }
+                s
             } else {
                 let k = rng.range(1, 7);
                 let mut s = if rng.chance(2, 3) { String::from("bytes=") } else { String::new() };
@@ -112,6 +136,7 @@ impl Group for Reply {
             Some(hv) => {
                 let s = String::from_utf8_lossy(hv).into_owned();
                 let digits = |x: &str| !x.is_empty() && x.bytes().all(|c| c.is_ascii_digit());
+                let lenient = |x: &str| digits(x.strip_prefix('+').unwrap_or(x));
                 if let Some(rest) = s.strip_prefix("bytes=") {
                     let parts: Vec<&str> = rest.splitn(2, '-').collect();
                     if parts.len() == 2 && digits(parts[0]) && digits(parts[1]) {
@@ -132,17 +157,17 @@ impl Group for Reply {
                             // numbers beyond 2^64
                             _ => Some(full),
                         }
-                    } else if rest.contains(',') || rest.starts_with('-') && digits(&rest[1..]) || rest.ends_with('-') && digits(&rest[..rest.len() - 1]) {
-                        // several ranges, suffix range, open range
-                        Some(full)
-                    } else {
+                    } else if parts.len() == 2 && lenient(parts[0]) && lenient(parts[1]) {
+                        // `+1`: Rust's integer parser accepts a sign the grammar does not have; whether that is a
+                        // "malformed number" is left to the comparison with the model
                         None
+                    } else {
+                        // "anything else": several ranges, suffix and open ranges, a repeated unit, stray bytes
+                        Some(full)
                     }
-                } else if s.contains('=') && s.split('=').next().map_or(false, |u| !u.is_empty() && u.bytes().all(|c| c.is_ascii_lowercase()) && u != "bytes") {
-                    // other units
-                    Some(full)
                 } else {
-                    None
+                    // other units, other spellings of the unit, no unit
+                    Some(full)
                 }
             }
         };
@@ -224,7 +249,8 @@ pub struct Wire;
 fn statement_expect(body: &[u8], hv: &[u8]) -> Option<(u16, Vec<u8>, Option<String>)> {
     let s = String::from_utf8_lossy(hv).into_owned();
     let digits = |x: &str| !x.is_empty() && x.bytes().all(|c| c.is_ascii_digit());
-    let rest = s.strip_prefix("bytes=")?;
+    let lenient = |x: &str| digits(x.strip_prefix('+').unwrap_or(x));
+    let Some(rest) = s.strip_prefix("bytes=") else { return Some((200, body.to_vec(), None)) };
     let parts: Vec<&str> = rest.splitn(2, '-').collect();
     if parts.len() == 2 && digits(parts[0]) && digits(parts[1]) {
         return match (parts[0].parse::<u64>(), parts[1].parse::<u64>()) {
@@ -240,10 +266,12 @@ fn statement_expect(body: &[u8], hv: &[u8]) -> Option<(u16, Vec<u8>, Option<Stri
             _ => Some((200, body.to_vec(), None)),
         };
     }
-    if rest.contains(',') || rest.starts_with('-') && digits(&rest[1..]) || rest.ends_with('-') && digits(&rest[..rest.len() - 1]) {
-        return Some((200, body.to_vec(), None));
+    if parts.len() == 2 && lenient(parts[0]) && lenient(parts[1]) {
+        // a sign Rust's integer parser accepts and the grammar does not have: left to the comparison with the model
+        return None;
     }
-    None
+    // "anything else" is the full response
+    Some((200, body.to_vec(), None))
 }
 
 impl Group for Wire {
@@ -259,7 +287,7 @@ impl Group for Wire {
     fn generate(&self, ctx: &Ctx, rng: &mut Rng) -> Vec<String> {
         let n = if ctx.mode == Mode::Quick { 220 } else { 6000 };
         let mut v = Vec::new();
-        let fixed = ["bytes=5-3", "bytes=1-0", "bytes=0-0", "bytes=2-5", "bytes=0-100", "bytes=30-40", "bytes=18446744073709551615-0", "bytes=0-18446744073709551615", "bytes=3-", "bytes=-3", "bytes=0-1,3-4", "items=0-1", "bytes=18446744073709551616-18446744073709551617"];
+        let fixed = ["bytes=5-3", "bytes=1-0", "bytes=0-0", "bytes=2-5", "bytes=0-100", "bytes=30-40", "bytes=18446744073709551615-0", "bytes=0-18446744073709551615", "bytes=3-", "bytes=-3", "bytes=0-1,3-4", "items=0-1", "bytes=bytes=0-3", "bytes=bytes=30-20", "bytes=18446744073709551616-18446744073709551617"];
         for h in fixed {
             for warm in [0, 1, 2] {
                 for m in ["G", "H"] {
